@@ -342,23 +342,22 @@ def edit_constant(parameterized):
     Temporarily set parameters on Parameterized object to constant=False
     to allow editing them.
     """
-    kls_params = parameterized.param.objects(instance=False)
-    inst_params = parameterized._param__private.params
+    # Only the Parameter objects of this object are made editable (for an
+    # instance, its per-instance Parameters). Toggling the Parameters of the
+    # class would unlock every other instance as well, and any copy made
+    # from them inside the block (for another instance or a subclass)
+    # would stay unlocked after it.
     updated = []
-    for pname, pobj in (kls_params | inst_params).items():
+    for pname in list(parameterized.param):
+        pobj = parameterized.param[pname]
         if pobj.constant:
             pobj.constant = False
-            updated.append(pname)
+            updated.append(pobj)
     try:
         yield
     finally:
-        for pname in updated:
-            # Some operations trigger a parameter instantiation (copy),
-            # we ensure both the class and instance parameters are reset.
-            if pname in kls_params:
-                type(parameterized).param[pname].constant=True
-            if pname in inst_params:
-                parameterized.param[pname].constant = True
+        for pobj in updated:
+            pobj.constant = True
 
 
 @contextmanager
